@@ -37,8 +37,14 @@ def build_scenario(rng, base, idx):
     t.add_file(os.path.join(root, b"c", b"uniq"), treegen.content(rng.next(), 777), 5)
     if idx % 2 == 0:
         t.add_hardlink(os.path.join(root, b"a", b"mid1"), os.path.join(root, b"c", b"mid1_link"))
-    if idx % 3 == 0:
-        t.add_symlink(os.path.join(root, b"a", b"s1"), os.path.join(root, b"b", b"s1_sym"))
+    # links: a file link (listed with -S, transparent with -L) and a directory link to a directory OUTSIDE the scanned
+    # root, whose files are reachable only through the link (scanned with -L)
+    t.add_symlink(os.path.join(root, b"a", b"s1"), os.path.join(root, b"b", b"s1_sym"))
+    out = os.path.join(t.base, b"outside")
+    t.add_file(os.path.join(out, b"o_small"), small, 4)
+    t.add_file(os.path.join(out, b"in", b"o_mid"), mid, 2)
+    t.add_symlink(out, os.path.join(root, b"c", b"out_link"))
+    t.outside = out
     return t
 
 
@@ -79,7 +85,7 @@ def run(ctx):
         base = os.path.join(ctx.scratch, "t%d" % ti)
         tree = build_scenario(rng, base, ti // 2)
         roots = tree.roots
-        links = "--symbolic-links" if tree.symlinks and rng.chance(1, 2) else None
+        links = ["--symbolic-links", "--follow-links", None][(ti // 2) % 3]
         extra0 = ([links] if links else [])
         env0 = {"FCLONES_VERIF_DISK_KIND": "ssd"}
         mode = [["--rf-over", "0"], []][ti % 2]
@@ -110,6 +116,10 @@ def run(ctx):
         for lp, _ in tree.symlinks:
             cases += [(lp, "readlink", 0), (lp, "stat", 0)]
         cases = rng.shuffle(cases)[:per_tree] if ctx.quick or len(cases) > per_tree else cases
+        if links:
+            # faults on the links themselves are never lost to sampling
+            cases = [(lp, call, 0) for lp, _ in tree.symlinks for call in ("readlink", "stat")] + \
+                    [c for c in cases if not any(c[0] == lp for lp, _ in tree.symlinks)]
         for (ent, call, nth) in cases:
             eno = rng.choice(list(ERRNOS))
             logf = os.path.join(ctx.scratch, "rdshim.log")
@@ -144,6 +154,11 @@ def run(ctx):
             base_files = {p for g in base_groups for p in g["files"]}
             is_dir = ent in dirs
             under = {p for p in cls_of if p == ent or p.startswith(ent + b"/")} if is_dir else {ent}
+            # followed directory links: everything reachable only through the link is lost with the link / its directory
+            for lp, _ in tree.symlinks:
+                if links == "--follow-links" and os.path.isdir(lp) and (lp == ent or (is_dir and lp.startswith(ent + b"/"))):
+                    real = os.path.realpath(lp)
+                    under |= {p for p in cls_of if os.path.realpath(p).startswith(real + b"/")}
             sib_links = {p for p in cls_of if p != ent and not is_dir and ent in ids and ids.get(p) == ids.get(ent)}
             # symlink entries reported with -S: the fault is on the link path
             extra_files = got_files - base_files
